@@ -465,7 +465,7 @@ PROPS["C14"]["audit_files"] = list(PROPS["C14"]["audit_files"]) + ["Narwhal/Mode
 PROPS["C14"]["expect_theorems"] = list(PROPS["C14"]["expect_theorems"]) + [
     "Narwhal.Limits.C14_conn_admission", "Narwhal.Limits.C14_conn_counter_exact", "Narwhal.Limits.C14_conn_admitted_below_limit",
     "Narwhal.Limits.C14_open_bound", "Narwhal.Limits.C14_open_refused_iff", "Narwhal.Limits.C14_close_bound", "Narwhal.Limits.C14_close_frees",
-    "Narwhal.Limits.C14_inflight_bound", "Narwhal.Limits.C14_release_frees"]
+    "Narwhal.Limits.C14_inflight_bound", "Narwhal.Limits.C14_release_frees", "Narwhal.Limits.C14_failed_requests_free_their_slots"]
 PROPS["C14"]["suites"]["limits"] = {"kind": "lines", "nvh_suite": "limits", "driver_suite": "limits", "op_prefixes": ["l "],
                                     "cases": {"quick": 300, "thorough": 6000}, "oracle_tags": ["C14"]}
 PROPS["C14"]["level_text"] = (
@@ -558,7 +558,7 @@ for _p in ("C13", "C15"):
 # C19: operation order of the pool regenerated from the source (table obligation) + multi-thread stress on the real pool
 PROPS["C19"]["theorems"] = ["Narwhal.Theorems.C19", "Narwhal.Theorems.C19Table"]
 PROPS["C19"]["expect_theorems"] = list(PROPS["C19"]["expect_theorems"]) + ["Narwhal.Pool.pool_table_ok"]
-PROPS["C19"]["suites"]["pool_mt"] = {"kind": "oracle", "nvh_suite": "pool_mt", "cases": {"quick": 16, "thorough": 600}, "oracle_tags": ["C19"]}
+PROPS["C19"]["suites"]["pool_mt"] = {"kind": "oracle", "nvh_suite": "pool_mt", "cases": {"quick": 16, "thorough": 200}, "oracle_tags": ["C19"]}
 PROPS["C19"]["level_text"] += (" The order of semaphore and queue operations the micro-step model assumes (permit before pop in acquire and "
                                "try_acquire, push before permits in release_buffers, no unsafe) is read from pool.rs on every run; the pool_mt suite "
                                "stresses the real pool with 6 threads (exclusive stamps, no panic, everything back, capacity re-acquirable).")
@@ -717,3 +717,10 @@ for _p in ("C05", "C01"):
 # C08 / C02: an alteration to nothing is refused at the gate; every MESSAGE of a broadcast carries a non-empty payload (D35)
 for _p in ("C08", "C02"):
     PROPS[_p]["expect_theorems"] = list(PROPS[_p]["expect_theorems"]) + ["Narwhal.Server.C08_message_payload_nonempty"]
+
+
+# C16 / C13: cancel-safety of `perform_request` (the model's `timeout` step returns the permit of any in-flight request)
+for _p in ("C16", "C13"):
+    if "Narwhal.Theorems.C16Ids" not in PROPS[_p]["theorems"]:
+        PROPS[_p]["theorems"] = list(PROPS[_p]["theorems"]) + ["Narwhal.Theorems.C16Ids"]
+    PROPS[_p]["expect_theorems"] = list(PROPS[_p]["expect_theorems"]) + ["Narwhal.Client.client_cancel_safe_table_ok"]
